@@ -2,7 +2,8 @@
    (pico8/game/formatter/p8.py).
 
    Regenerated (Generated/K_p8file.v): the header string, the statement sequence of to_file as an
-   event list (interpreted below), the section-name dispatch of from_file, the regex sources.
+   event list (interpreted below), the section-name dispatch of from_file, the table of the loop that
+   fills short data sections up with the default contents (p8_pad_sections), the regex sources.
    Hand-modelled: readline splitting, the two regex matches (HEADER_VERSION_RE, SECTION_DELIM_RE -
    sources pinned in Proofs/P8FileProofs.v), the section-collecting loop with dict semantics.
    The Lua object is abstract here (Section variables): lexing/parsing/echo are the lexer stack's. *)
@@ -174,9 +175,43 @@ Definition apply_section (c : cart) (nl : list Z * list (list Z)) : result cart 
     else Err InvalidP8Section
   end.
 
+(* the loop after the dispatch (regenerated as p8_pad_sections: section key, default contents):
+     section = getattr(new_game, name)
+     if section is not None:
+         default = full.empty(version=data.version)._data
+         if len(section._data) < len(default): section._data.extend(default[len(section._data):]) *)
+Definition pad_to (d dflt : list Z) : list Z :=
+  if zlen d <? zlen dflt then d ++ skipn (length d) dflt else d.
+
+Definition pad_section (c : cart) (kd : Z * list Z) : result cart :=
+  let '(k, dflt) := kd in
+  if k =? 0 then
+      Ok {| c_version := c_version c; c_lua := c_lua c; c_gfx := pad_to (c_gfx c) dflt; c_label := c_label c;
+            c_gff := c_gff c; c_map := c_map c; c_sfx := c_sfx c; c_music := c_music c |}
+  else if k =? 6 then
+      Ok {| c_version := c_version c; c_lua := c_lua c; c_gfx := c_gfx c;
+            c_label := match c_label c with Some d => Some (pad_to d dflt) | None => None end;
+            c_gff := c_gff c; c_map := c_map c; c_sfx := c_sfx c; c_music := c_music c |}
+  else if k =? 2 then
+      Ok {| c_version := c_version c; c_lua := c_lua c; c_gfx := c_gfx c; c_label := c_label c;
+            c_gff := pad_to (c_gff c) dflt; c_map := c_map c; c_sfx := c_sfx c; c_music := c_music c |}
+  else if k =? 1 then
+      Ok {| c_version := c_version c; c_lua := c_lua c; c_gfx := c_gfx c; c_label := c_label c;
+            c_gff := c_gff c; c_map := pad_to (c_map c) dflt; c_sfx := c_sfx c; c_music := c_music c |}
+  else if k =? 4 then
+      Ok {| c_version := c_version c; c_lua := c_lua c; c_gfx := c_gfx c; c_label := c_label c;
+            c_gff := c_gff c; c_map := c_map c; c_sfx := pad_to (c_sfx c) dflt; c_music := c_music c |}
+  else if k =? 3 then
+      Ok {| c_version := c_version c; c_lua := c_lua c; c_gfx := c_gfx c; c_label := c_label c;
+            c_gff := c_gff c; c_map := c_map c; c_sfx := c_sfx c; c_music := pad_to (c_music c) dflt |}
+  else Err OtherError.
+
+Definition pad_sections (c : cart) : result cart := foldM pad_section p8_pad_sections c.
+
 Definition read_p8 (file : list Z) : result cart :=
   raw <- get_raw_data file ;;
-  foldM apply_section (raw_sections raw) (empty_cart (raw_version raw)).
+  c <- foldM apply_section (raw_sections raw) (empty_cart (raw_version raw)) ;;
+  pad_sections c.
 
 (* ---------- writer: interpreting the regenerated statement sequence of to_file ---------- *)
 Definition section_lines (c : cart) (k : Z) : result (list (list Z)) :=
